@@ -1,7 +1,11 @@
 """C03 — no column is consumed before it is final, under every interleaving."""
 from vlib import sweep as S, common as C, sched as SC
-LEVEL = "model_checking"
-EXPLANATION = ("Pipeline invariants are theorems about Model/Sched*.lean (Props/C03.lean, C04.lean); the model is tied to the real "
+LEVEL = "proof"
+EXPLANATION = ("Pipeline structure proved on Model/Sched*.lean for every forest, thread count and interleaving (Props/C03Global.lean): at a hand-out the "
+               "unfinished proper descendants are BUSY and lie on the panel path from the bcol handed to the thread (global_handout_chain), a panel is completed "
+               "only over finished descendants (global_finish_descendants_done), children are handed out before parents, waiting never deadlocks "
+               "(global_progress); hypotheses initOk/initOk2/initOk3 are evaluated by the driver on every configuration. The kernel-level clause (a column is read only "
+               "after the wait for it) is not a theorem: it is watched on real runs. The model is tied to the real "
                "scheduler state-for-state (driven scheduler) and explored exhaustively on small forests; real multi-threaded runs with "
                "schedule perturbation are monitored through the guarded hooks (event log: take / release / pivot / busy-supernode read / "
                "DFS read / done) for read-before-release, double or missing updates, and the hand-out rule, and every result is judged "
